@@ -397,7 +397,7 @@ func checkAST(t *core.T, desc, class string, ast0 *sast.Schema) {
 	}
 	in := func() string { return desc + "\n" + string(text) }
 	var s1 schema.Schema
-	if t.Protect(sig("UnmarshalCedar"), in(), func() { err = s1.UnmarshalCedar(text) }) {
+	if t.Protect(sig("UnmarshalCedar"), in(), func() { err = core.Scribbled(text, s1.UnmarshalCedar) }) {
 		return
 	}
 	if err != nil {
@@ -438,7 +438,7 @@ func checkAST(t *core.T, desc, class string, ast0 *sast.Schema) {
 	}
 	jin := func() string { return desc + "\n" + string(js) }
 	var s2 schema.Schema
-	if t.Protect(sig("UnmarshalJSON"), jin(), func() { err = s2.UnmarshalJSON(js) }) {
+	if t.Protect(sig("UnmarshalJSON"), jin(), func() { err = core.Scribbled(js, s2.UnmarshalJSON) }) {
 		return
 	}
 	if err != nil {
